@@ -1,7 +1,9 @@
 use crate::common::utils::str::pluralize;
 use crate::server::event::Event;
 use crate::server::event::journal::JournalReader;
-use crate::server::event::journal::prune::{find_newest_ids, prune_journal};
+use crate::server::event::journal::prune::{
+    find_newest_ids, find_queue_resource_workers, prune_journal,
+};
 use crate::server::event::journal::write::JournalWriter;
 use crate::server::event::payload::EventPayload;
 use std::ffi::OsString;
@@ -111,6 +113,9 @@ async fn streaming_process(
                         if let Some(worker_id) = newest_worker {
                             live_workers.insert(worker_id);
                         }
+                        // Keep the workers that define the known worker resources of allocation
+                        // queues, the queues are restored with these resources
+                        live_workers.extend(find_queue_resource_workers(&mut JournalReader::open(journal_path)?)?);
                         let mut tmp_path: OsString = journal_path.into();
                         tmp_path.push(".tmp");
                         let tmp_path: PathBuf = tmp_path.into();
